@@ -205,3 +205,69 @@ func c07RoundTrips(c *Ctx, r *Report) {
 	}
 	r.Floor("R07.9", "int→float→int conversions in pkg/bifs", n, 1)
 }
+
+// R07.9b: an int value read through a numeric-to-float accessor and converted
+// back to an integer.
+func c07NumericToFloatBack(c *Ctx, r *Report) {
+	r.Rule("R07.9b", "an integer is not read as a float and converted back: where the result of (*Mlrval).GetNumericToFloatValue (which converts an int payload to float64) is converted to an integer type, the int case has been handled separately on the way (a dominating test fed by GetIntValue / IsInt / Type() on the same value) — otherwise integers beyond 2^53 are rounded (fmtnum %d, integer-valued verbs)")
+	n := 0
+	for _, fn := range c.ModuleFunctions() {
+		if fn.Pkg == nil {
+			continue
+		}
+		pp := fn.Pkg.Pkg.Path()
+		if !(strings.HasSuffix(pp, "/pkg/mlrval") || strings.HasSuffix(pp, "/pkg/bifs") || strings.Contains(pp, "/pkg/transformers")) {
+			continue
+		}
+		k := 0
+		for _, b := range fn.Blocks {
+			for _, in := range b.Instrs {
+				cv, ok := in.(*ssa.Convert)
+				if !ok || !isFloat64(cv.X.Type()) {
+					continue
+				}
+				if bt, ok := cv.Type().Underlying().(*types.Basic); !ok || bt.Info()&types.IsInteger == 0 {
+					continue
+				}
+				ex, ok := cv.X.(*ssa.Extract)
+				if !ok {
+					continue
+				}
+				call, ok := ex.Tuple.(*ssa.Call)
+				if !ok || !strings.HasSuffix(CalleeName(&call.Call), ".GetNumericToFloatValue") || len(call.Call.Args) == 0 {
+					continue
+				}
+				mv := call.Call.Args[0]
+				n++
+				k++
+				key := fmt.Sprintf("%s: int(numeric-to-float) #%d", SSAName(fn), k)
+				handled := false
+				for d := b.Idom(); d != nil; d = d.Idom() {
+					iff, ok := d.Instrs[len(d.Instrs)-1].(*ssa.If)
+					if !ok {
+						continue
+					}
+					cond, _ := stripNot(iff.Cond, true)
+					var src ssa.Value = cond
+					if e2, ok := cond.(*ssa.Extract); ok {
+						src = e2.Tuple
+					}
+					if bo, ok := cond.(*ssa.BinOp); ok {
+						src = bo.X
+					}
+					if c2, ok := src.(*ssa.Call); ok && len(c2.Call.Args) > 0 && c2.Call.Args[0] == mv {
+						nm := CalleeName(&c2.Call)
+						if strings.HasSuffix(nm, ".GetIntValue") || strings.HasSuffix(nm, ".IsInt") || strings.HasSuffix(nm, ".Type") || strings.HasSuffix(nm, ".IsFloat") || strings.HasSuffix(nm, ".GetFloatValue") {
+							handled = true
+						}
+					}
+				}
+				r.Check(handled, "R07.9b", key, c.Rel(cv.Pos()), "the int case is handled separately",
+					fmt.Sprintf("%s converts the float64 result of GetNumericToFloatValue back to an integer without having treated integers separately: an int payload beyond 2^53 is rounded on the way", SSAName(fn)))
+			}
+		}
+	}
+	if n == 0 {
+		r.OK("R07.9b", "no int(GetNumericToFloatValue()) conversion", "", "none in pkg/mlrval, pkg/bifs, pkg/transformers")
+	}
+}
